@@ -101,3 +101,7 @@ def run(ctx, rep):
         if what in ('file data (write)', 'modification time'):
             continue
         rep.check(k in have, 'R-C01-4', 'fix can re-create: %s (%s in %s)' % (what, k[1], k[0]), 'cmdline/check.c', 'reachable under fix' if k in have else 'no longer reachable from the fix command', function=k[0], construct='creating effect %s' % what)
+    # bytes per block (last partial block) and the valid range of a data file being rebuilt
+    C04.block_size_rule(P, rep, 'R-C01-6')
+    from .C17 import handle_valid_size_rules
+    handle_valid_size_rules(P, rep, 'R-C01-7')
